@@ -8,6 +8,7 @@ package gabi
 // proof and the statement it reports holds for the signed attribute value.
 
 import (
+	"sort"
 	"encoding/json"
 	"fmt"
 	gobig "math/big"
@@ -243,25 +244,33 @@ func TestVF_C12_Forgeries(t *testing.T) {
 			if f != nil && !f(l) {
 				return true
 			}
-			var acc bool
-			ps := vfh.Guard(func() { acc = l.Verify(pks, ctx, nonce, false, nil) })
 			rec.Case("forgery/"+name, true, fmt.Sprintf("g|%s|%v|%s", kp.Name, descs, name))
-			if ps != "" {
-				return rec.Fail(rt, ps+":"+name, det(name))
-			}
-			if !acc {
-				if f == nil {
-					return rec.Fail(rt, "honest-range-proof-list-rejected", det(name))
+			// the same decoded object is verified twice (a verifier may check a proof on its own
+			// and again as part of a list): both verdicts are judged, a rejection must not turn
+			// into an acceptance
+			for round, tag := range []string{"", ":second-verification-of-the-same-object"} {
+				var acc bool
+				ps := vfh.Guard(func() { acc = l.Verify(pks, ctx, nonce, false, nil) })
+				if ps != "" {
+					return rec.Fail(rt, ps+":"+name+tag, det(name))
 				}
-				return true
-			}
-			for i, p := range l {
-				if v := c12Oracle(p.(*ProofD), truth[i]); v != "" {
-					return rec.Fail(rt, v+":"+name, det(name))
+				if !acc {
+					if f == nil {
+						return rec.Fail(rt, "honest-range-proof-list-rejected"+tag, det(name))
+					}
+					continue
 				}
-			}
-			if mustReject {
-				return rec.Fail(rt, "forged-range-proof-placement-accepted:"+name, det(name))
+				if round == 1 {
+					rec.Class("accepted-on-second-verification", 1)
+				}
+				for i, p := range l {
+					if v := c12Oracle(p.(*ProofD), truth[i]); v != "" {
+						return rec.Fail(rt, v+":"+name+tag, det(name))
+					}
+				}
+				if mustReject {
+					return rec.Fail(rt, "forged-range-proof-placement-accepted:"+name+tag, det(name))
+				}
 			}
 			return true
 		}
@@ -344,6 +353,46 @@ func TestVF_C12_Forgeries(t *testing.T) {
 		}) {
 			return
 		}
+		// a range proof whose descriptor cannot even be turned into a structure (l_d too large, too
+		// few C's) and that claims a false statement, attached to either proof
+		for i := 2; i <= nattr; i++ {
+			i := i
+			if isD[i] {
+				continue
+			}
+			for _, how := range []string{"l_d=Lm+1", "two-Cs", "k-absent"} {
+				how := how
+				for _, target := range []string{"A", "B"} {
+					target := target
+					if !present("unverifiable-false-claim/"+how+"/on-"+target, true, func(l ProofList) bool {
+						src := A(l).RangeProofs[first][0]
+						bogus := *src
+						bogus.Sign = 1
+						bogus.A = 1
+						bogus.K = new(big.Int).Add(truth[map[string]int{"A": 0, "B": 1}[target]][i], bi(5)) // m >= m+5
+						switch how {
+						case "l_d=Lm+1":
+							bogus.Ld = pk.Params.Lm + 1
+						case "two-Cs":
+							bogus.Cs = bogus.Cs[:2]
+						case "k-absent":
+							bogus.K = nil
+						}
+						t := B(l)
+						if target == "A" {
+							t = A(l)
+						}
+						if t.RangeProofs == nil {
+							t.RangeProofs = map[int][]*rangeproof.Proof{}
+						}
+						t.RangeProofs[i] = append(t.RangeProofs[i], &bogus)
+						return true
+					}) {
+						return
+					}
+				}
+			}
+		}
 		// descriptor and response alterations of the first carried range proof
 		rp := func(l ProofList) *rangeproof.Proof { return A(l).RangeProofs[first][0] }
 		alts := map[string]func(l ProofList) bool{
@@ -387,7 +436,13 @@ func TestVF_C12_Forgeries(t *testing.T) {
 			},
 			"hidden-response+1": func(l ProofList) bool { A(l).AResponses[first].Add(A(l).AResponses[first], bi(1)); return true },
 		}
-		for name, f := range alts {
+		var altNames []string
+		for name := range alts {
+			altNames = append(altNames, name)
+		}
+		sort.Strings(altNames)
+		for _, name := range altNames {
+			f := alts[name]
 			// l_d is not bound by the challenge: a larger admissible value only loosens a size limit
 			must := name != "l_d=Lm"
 			if !present("altered/"+name, must, f) {
